@@ -156,4 +156,72 @@ func runAnchors(c *vf.Ctx) {
 			c.Sample(cd)
 		}
 	}
+	// A responder that once FOLLOWED the requester's branch and then reorganised to a longer one forking below all
+	// of the requester's anchors: it has every anchor in its block store, none on its main chain. Naming any of
+	// them as common ancestor would give the finder a block the remote chain lacks.
+	d, _, err3 := w.Node("remote2", nil)
+	e, _, err4 := w.Node("builder2", nil)
+	if err3 != nil || err4 != nil {
+		c.Inconclusive(fmt.Sprintf("anchors: start nodes: %v %v", err3, err4))
+		return
+	}
+	if !grow(d, common, "common prefix") || !grow(e, common, "common prefix") {
+		return
+	}
+	feed := func(to *noderig.Client, from *noderig.Client, lo, hi int) bool {
+		for h := lo; h <= hi; h++ {
+			blk, err := from.GetBlockByNo(uint64(h))
+			if err != nil {
+				c.Inconclusive("anchors: read block: " + err.Error())
+				return false
+			}
+			if res, err := to.AddBlock(blk); err != nil || res != "" {
+				c.Inconclusive(fmt.Sprintf("anchors: feeding block %d: %v %s", h, err, res))
+				return false
+			}
+		}
+		return true
+	}
+	if !feed(d, a, common+1, cur) { // d follows the requester's branch up to its tip
+		return
+	}
+	if !fork(e, 4e9) || !grow(e, cur-common+8, "second remote branch") || !feed(d, e, common+1, cur+9) {
+		return
+	}
+	db, _ := d.Best()
+	eb, _ := e.Best()
+	if !bytes.Equal(db.Hash, eb.Hash) {
+		c.Inconclusive("anchors: the second responder did not reorganise to the longer branch")
+		return
+	}
+	rsp, err := a.Anchors()
+	c.Eval(1)
+	if err != nil || rsp.Err != "" || len(rsp.Hashes) == 0 {
+		c.Inconclusive("anchors: no anchors for the reorganised responder")
+		return
+	}
+	lowestOnA := uint64(0)
+	if blk, err := a.GetBlock(rsp.Hashes[len(rsp.Hashes)-1]); err == nil {
+		lowestOnA = noderig.DecBlock(blk).BlockNo()
+	}
+	anc, err := d.Ancestor(rsp.Hashes)
+	if err != nil {
+		fail("node-died", err.Error(), nil)
+		return
+	}
+	cd := map[string]interface{}{"part": "anchors/responder-reorganised-away", "local_height": cur, "fork_height": common, "lowest_anchor": lowestOnA, "answer_height": anc.No, "answer_err": anc.Err}
+	if lowestOnA <= uint64(common) {
+		c.Count("reorganised_responder/lowest-anchor-shared", 1)
+	} else {
+		c.Count("reorganised_responder/all-anchors-off-its-main-chain", 1)
+		if len(anc.Hash) != 0 {
+			mb, err := d.GetBlockByNo(anc.No)
+			onMain := err == nil && bytes.Equal(noderig.DecBlock(mb).BlockHash(), anc.Hash)
+			fail("ancestor-not-on-responders-main-chain", fmt.Sprintf("the responder followed the requester's branch to height %d, then reorganised to a branch forking at %d; all %d anchors (lowest at %d) are in its store but off its main chain, yet it names %x (height %d, on its main chain: %v) as common ancestor", cur, common, len(rsp.Hashes), lowestOnA, anc.Hash, anc.No, onMain), cd)
+			return
+		}
+	}
+	c.Nontrivial(fmt.Sprintf("anchors|reorganised|%d|%d", common, cur))
+	c.Sample(cd)
+
 }
